@@ -14,6 +14,7 @@ trap cleanup EXIT
 (cd "$WT" && git apply "$PATCH") || { echo "INFRA: patch does not apply"; exit 3; }
 (cd "$WT" && GOFLAGS=-mod=mod GOPROXY=off GOSUMDB=off go build ./... ) || { echo "INFRA: mutant does not compile"; exit 3; }
 OUT=$(cd /verif && VERIF_REPO="$WT" ./check "$PROP" "$@" 2>&1); rc=$?
+echo "$OUT" | grep -m1 "^VIOLATION"
 echo "$OUT" | tail -6
 case $rc in
  1) echo "DETECTED $PROP $(basename $PATCH)";;
